@@ -261,7 +261,9 @@ var ErrSentinel = fmt.Errorf("verif sentinel")
 
 // DefaultGuard bounds one call on an emulated file system: a call on a tree of a
 // few dozen nodes takes microseconds, only a self-deadlock or an endless loop
-// reaches the bound. The outcome is then "HANG" and the runner is dead (the
+// reaches the bound - or a starved process, which is why reaching the bound alone
+// decides nothing (guard.go). The outcome "HANG" means the call is parked in a lock
+// nothing can release, or still running after many bounds; the runner is then dead (the
 // stuck goroutine may hold locks): every later op answers HANG at once.
 // Deadlocks are decided exactly by C07; here the bound only keeps a check
 // from wedging. A zero Guard disables it (kernel side: the op must stay on the
@@ -284,17 +286,12 @@ func (r *Runner) Do(o Op) Out {
 	if r.Dead {
 		return Out{Err: "HANG"}
 	}
-	ch := make(chan Out, 1)
-	go func() { ch <- r.do(o) }()
-	t := time.NewTimer(r.Guard)
-	defer t.Stop()
-	select {
-	case out := <-ch:
-		return out
-	case <-t.C:
+	out, ok, note := guardedCall(r.Guard, func() Out { return r.do(o) })
+	if !ok {
 		r.Dead = true
-		return Out{Err: "HANG", Note: "no return within " + r.Guard.String()}
+		return Out{Err: "HANG", Note: note}
 	}
+	return out
 }
 
 // do executes one op; a panic of the code under test becomes Err "PANIC".
